@@ -63,6 +63,7 @@ class Pipeline:
         self.rows_param = f.params[1]
         self.env = Env(func=f, params={p: frozenset({Val("unknown")}) for p in f.params[1:]}, inst=self.balancer)
         self.stages: List[Stage] = []
+        self.inlined: List[str] = []
         self._build()
 
     # column helpers -----------------------------------------------------
@@ -98,13 +99,31 @@ class Pipeline:
 
     # ---------------------------------------------------------------------
     def _build(self) -> None:
-        ctx, f = self.ctx, self.func
+        self._idx = 0
+        self._walk(self.func, self.env, {self.rows_param}, 0)
+
+    def _is_orchestration(self, callee: Func) -> bool:
+        """A method of the Balancer that hands *its own rows parameter* on to stage
+        objects / package functions: its body is part of the stage sequence."""
+        if callee.cls is not self.balancer.cls or len(callee.params) < 2:
+            return False
+        rows = callee.params[1]
+        n = 0
+        for c in [x for x in own_nodes(callee.node) if isinstance(x, ast.Call)]:
+            passes = any(isinstance(a, ast.Name) and a.id == rows for a in c.args) or any(isinstance(k.value, ast.Name) and k.value.id == rows for k in c.keywords)
+            if not passes or not isinstance(c.func, ast.Attribute):
+                continue
+            recv = c.func.value
+            if isinstance(recv, ast.Attribute) and isinstance(recv.value, ast.Name) and recv.value.id == callee.params[0]:
+                n += 1  # self.<stage>.method(rows)
+        return n >= 1
+
+    def _walk(self, f: Func, env: Env, rows_names, depth: int) -> None:
+        ctx = self.ctx
         body = f.node.body
-        rows_names = {self.rows_param}
-        idx = 0
         from .rows import RowFlow
 
-        inline_flow = RowFlow(ctx.ev, f, self.env, {self.rows_param})
+        inline_flow = RowFlow(ctx.ev, f, env, set(rows_names))
         inline_stores = inline_flow.stores()
         for stmt in body:
             # row stores written directly in the pipeline function form a pseudo stage
@@ -112,13 +131,13 @@ class Pipeline:
             if mine:
                 fake = ast.Call(func=ast.Name(id="<inline>", ctx=ast.Load()), args=[], keywords=[])
                 ast.copy_location(fake, stmt)
-                st = Stage(index=idx, call=fake, stmt=stmt, callee=f, inst=self.balancer, attr="", params={})
+                st = Stage(index=self._idx, call=fake, stmt=stmt, callee=f, inst=self.balancer, attr="", params={})
                 st.stores = mine
                 st.inline = True
                 for s in mine:
                     s.via = [f.qualname]
                 self.stages.append(st)
-                idx += 1
+                self._idx += 1
             # only top-level straight-line statements form the stage sequence;
             # calls nested in `if stats is not None` etc. are looked at too
             for call in _calls_in_stmt(stmt):
@@ -147,7 +166,7 @@ class Pipeline:
                     elif isinstance(recv, ast.Name) and recv.id == f.params[0]:
                         inst = self.balancer
                         skip_self = True
-                params = ctx.ev.bind_call(callee, call, self.env, skip_self=skip_self)
+                params = ctx.ev.bind_call(callee, call, env, skip_self=skip_self)
                 cenv = Env(func=callee, params=params, inst=inst)
                 names = callee.params[1:] if skip_self else callee.params
                 containers = set()
@@ -157,7 +176,12 @@ class Pipeline:
                 for k in call.keywords:
                     if isinstance(k.value, ast.Name) and k.value.id in rows_names and k.arg:
                         containers.add(k.arg)
-                st = Stage(index=idx, call=call, stmt=stmt, callee=callee, inst=inst, attr=attr, params=params)
+                if inst is self.balancer and attr == "" and depth < 2 and containers and self._is_orchestration(callee):
+                    # a helper that runs part of the stage sequence: its statements are stages of the pipeline
+                    self.inlined.append(callee.qualname)
+                    self._walk(callee, cenv, containers, depth + 1)
+                    continue
+                st = Stage(index=self._idx, call=call, stmt=stmt, callee=callee, inst=inst, attr=attr, params=params)
                 st.stores = collect_row_stores(ctx, callee, cenv, containers, depth=3)
                 st.env = cenv
                 # subscript stores of the stage function that are not row
@@ -175,7 +199,7 @@ class Pipeline:
                 if isinstance(stmt, ast.Assign) and any(isinstance(t, ast.Name) and t.id in rows_names for t in stmt.targets):
                     st.rows_rebound = True
                 self.stages.append(st)
-                idx += 1
+                self._idx += 1
 
     def stage_by_attr(self, attr: str, method: Optional[str] = None) -> List[Stage]:
         return [s for s in self.stages if s.attr == attr and (method is None or s.callee.name == method)]
